@@ -391,9 +391,11 @@ class CFG:
         body = fn.get('body')
         if body is None:
             raise AnalysisBroken('function %s has no body' % fn['q'])
+        self._labels = {}       # label name -> node id
+        self._gotos = []        # (node id, label)
         for x in walk(body):
-            if x['k'] == 'Goto':
-                raise AnalysisBroken('goto/label in %s: structured CFG builder does not apply' % fn['q'])
+            if x['k'] == 'IndirectGoto':
+                raise AnalysisBroken('indirect goto in %s: CFG builder does not apply' % fn['q'])
         # constructor member initialisers come first
         preds = {self.entry}
         for ini in fn.get('inits', []) or []:
@@ -403,6 +405,10 @@ class CFG:
                 preds = {nid}
         out = self._stmt(body, preds, None, None)
         self._link(out, self.exit)
+        for nid, lab in self._gotos:
+            if lab not in self._labels:
+                raise AnalysisBroken('goto to unknown label %s in %s' % (lab, fn['q']))
+            self._link({nid}, self._labels[lab])
         self.pred = [[] for _ in self.nodes]
         for a, ss in enumerate(self.succ):
             for b in ss:
@@ -510,6 +516,16 @@ class CFG:
             if not has_default:
                 outs.add(c)
             return outs
+        if k == 'Goto':
+            n = self._new('jump', s)
+            self._link(preds, n)
+            self._gotos.append((n, s['label']))
+            return set()
+        if k == 'Label':
+            n = self._new('label', s)
+            self._link(preds, n)
+            self._labels[s['name']] = n
+            return self._stmt(s['sub'], {n}, brk, cont)
         if k == 'Break':
             n = self._new('jump', s)
             self._link(preds, n)
